@@ -67,8 +67,14 @@ def rtOp (ws : List String) : String :=
       else if fmt == "psiblast" then roundTrip (psiblastWrite abc) (psiblastRead (psiblastCfg abc)) m
       else if fmt == "clustal" then roundTrip (clustalWrite false abc) (clustalRead false (clustalCfg abc)) m
       else if fmt == "clustallike" then roundTrip (clustalWrite true abc) (clustalRead true (clustalCfg abc)) m
-      else if fmt == "phylip" then roundTrip (phylipWrite false abc) (phylipRead false (phylipCfg abc)) m
-      else if fmt == "phylips" then roundTrip (phylipWrite true abc) (phylipRead true (phylipCfg abc)) m
+      else if fmt == "phylip" || fmt == "phylips" then
+        -- `via=direct nw=… rpl=…`: `esl_msafile_phylip_Write` with an ESL_MSAFILE_FMTDATA, read back with `fmtd.namewidth = nw`
+        let seq := fmt == "phylips"
+        if (arg? ws "via") == some "direct" && ((arg? ws "nw").isSome || (arg? ws "rpl").isSome) then
+          let nw := (argNat? ws "nw").getD 0
+          let rpl := (argNat? ws "rpl").getD 0
+          roundTrip (phylipWriteW nw rpl seq abc) (phylipReadW nw seq (phylipCfg abc)) m
+        else roundTrip (phylipWrite seq abc) (phylipRead seq (phylipCfg abc)) m
       else if fmt == "stockholm" then roundTripSto (stockholmWrite false abc) (stockholmRead (stockholmCfg abc)) m
       else if fmt == "pfam" then roundTripSto (stockholmWrite true abc) (stockholmRead (stockholmCfg abc)) m
       else if fmt == "selex" then roundTrip (selexWrite abc) (selexRead (selexCfg abc)) m
